@@ -2902,6 +2902,17 @@ def c05_fallible(ctx):
         base = ret[2][0] if ret is not None and ret[0] == 'call' and ret[2] else None
         while base is not None and base[0] in ('ref', 'mut'):
             base = base[1]
+        if m == 'has_value' and ret is not None:
+            # `!self.is_none()`, `self.is_none() == false` ..: the boolean normal form
+            from .rules_flow import norm_bool
+            kind, inner = norm_bool(ret)
+            if kind in ('is_some', 'is_none') and inner is not None:
+                bi = inner
+                while bi is not None and bi[0] in ('ref', 'mut'):
+                    bi = bi[1]
+                if kind == 'is_some' and bi == P('self'):
+                    ret = ('call', 'std::option::Option::is_some', (P('self'),))
+                    base = P('self')
         ok = ret is not None and ret[0] == 'call' and tcallee(ret) in (OKTEST if m == 'has_value' else OKVAL) and base == P('self')
         out.inst(key, ok, t_str(ret)[:100], sample={'impl': key_of(b), 'returns': t_str(ret)[:120]})
         if not ok:
